@@ -939,6 +939,71 @@ fn group_state(case: &Value) {
     println!("{}", serde_json::to_string(&json!({"rejected": verdict.is_some(), "stale_before": stale_before})).unwrap());
 }
 
+/// An insertion context made from a solution (C14): which tours are kept and which vehicles the registry offers afterwards.
+fn ctx_from_solution(case: &Value) {
+    use vrp_core::models::{Extras, Problem, Solution};
+    let kinds: Vec<String> = case["tours"].as_array().unwrap().iter().map(|k| k.as_str().unwrap().to_string()).collect();
+    let vehicles: Vec<Arc<Vehicle>> = (0..kinds.len())
+        .map(|i| {
+            let mut dimens = Dimensions::default();
+            dimens.set_vehicle_id(format!("v{i}"));
+            Arc::new(Vehicle {
+                profile: Profile::default(),
+                costs: costs(&Value::Null),
+                dimens,
+                details: vec![VehicleDetail {
+                    start: Some(VehiclePlace { location: 0, time: TimeInterval { earliest: Some(0.), latest: None } }),
+                    end: Some(VehiclePlace { location: 0, time: TimeInterval { earliest: None, latest: Some(1000.) } }),
+                }],
+            })
+        })
+        .collect();
+    let driver = Driver { costs: costs(&Value::Null), dimens: Default::default(), details: vec![] };
+    let fleet = Arc::new(Fleet::new(vec![Arc::new(driver)], vehicles, |_| |_| 0));
+    let transport: Arc<dyn TransportCost> =
+        Arc::new(Matrix { dur: HashMap::new(), dist: HashMap::new(), dur_default: 0., dist_default: 0. });
+    let activity: Arc<dyn ActivityCost> = Arc::new(SimpleActivityCost::default());
+    let feature = TransportFeatureBuilder::new("transport")
+        .set_transport_cost(transport.clone())
+        .set_activity_cost(activity.clone())
+        .build_minimize_cost()
+        .unwrap();
+    let goal_ctx = GoalContextBuilder::with_features(&[feature]).unwrap().build().unwrap();
+    let logger: vrp_core::rosomaxa::utils::InfoLogger = Arc::new(|_| ());
+    let jobs = vrp_core::models::problem::Jobs::new(&fleet, vec![], transport.as_ref(), &logger).unwrap();
+    let problem = Arc::new(Problem {
+        fleet: fleet.clone(),
+        jobs: Arc::new(jobs),
+        locks: vec![],
+        goal: Arc::new(goal_ctx),
+        activity,
+        transport,
+        extras: Arc::new(Extras::default()),
+    });
+    let environment = Arc::new(vrp_core::rosomaxa::utils::Environment::default());
+    let mut registry = Registry::new(&fleet, environment.random.clone());
+    let mut routes = vec![];
+    for (i, kind) in kinds.iter().enumerate() {
+        if kind == "none" {
+            continue;
+        }
+        let actor = fleet.actors.iter().find(|a| a.vehicle.dimens.get_vehicle_id().unwrap() == &format!("v{i}")).unwrap().clone();
+        let mut rc = RouteContext::new(actor.clone());
+        if kind == "job" {
+            rc.route_mut().tour.insert_last(Activity::new_with_job(Arc::new(Single { places: vec![], dimens: Default::default() })));
+        }
+        registry.use_actor(&actor);
+        routes.push(rc.route().deep_copy());
+    }
+    let solution = Solution { cost: 0., registry, routes, unassigned: vec![], telemetry: None };
+    let ictx = InsertionContext::new_from_solution(problem, (solution, None), environment);
+    let id_of = |a: &Arc<Actor>| a.vehicle.dimens.get_vehicle_id().unwrap().clone();
+    let kept: Vec<String> = ictx.solution.routes.iter().map(|rc| id_of(&rc.route().actor)).collect();
+    let mut available: Vec<String> = ictx.solution.registry.resources().available().map(|a| id_of(&a)).collect();
+    available.sort();
+    println!("{}", serde_json::to_string(&json!({"kept": kept, "available": available})).unwrap());
+}
+
 /// `Statistic + Statistic` through the public operator.
 fn statistic_sum(case: &Value) {
     use vrp_pragmatic::format::solution::{Statistic, Timing};
@@ -994,6 +1059,9 @@ fn main() {
     }
     if case["kind"] == "group_state" {
         return group_state(&case);
+    }
+    if case["kind"] == "ctx_from_solution" {
+        return ctx_from_solution(&case);
     }
     if case["kind"] == "min_variation" {
         return min_variation(&case);
